@@ -174,6 +174,26 @@ def rebuild_ops(im, k, n, rng, edit):
             else:
                 op[4][j][1] = ["str", "edited"]
             changed = True
+        elif edit == "value-kind" and op[4]:
+            # the same printed form under another kind of value: a qualified name as the URI it denotes, a URI as a
+            # string, an int as its decimal string, a boolean as a string (not on formal attributes, which normalise)
+            formal = {"entity", "activity", "agent", "time", "startTime", "endTime", "trigger", "starter", "ender", "informed",
+                      "informant", "generatedEntity", "usedEntity", "generation", "usage", "plan", "delegate", "responsible",
+                      "influencee", "influencer", "specificEntity", "generalEntity", "bundle", "collection", "alternate1", "alternate2"}
+            cands = [j for j, (a, v) in enumerate(op[4]) if not (a[0] == "Q" and a[2] == "http://www.w3.org/ns/prov#" and a[3] in formal)
+                     and not (a[0] == "S" and a[1].startswith("prov:") and a[1][5:] in formal) and v[0] in ("qn", "id", "int", "bool")]
+            if cands:
+                j = rng.choice(cands)
+                v = op[4][j][1]
+                if v[0] == "qn":
+                    op[4][j][1] = ["id", v[2] + v[3]]
+                elif v[0] == "id":
+                    op[4][j][1] = ["str", v[1]]
+                elif v[0] == "int":
+                    op[4][j][1] = ["str", v[1]]
+                else:
+                    op[4][j][1] = ["str", "True" if v[1] == "true" else "False"]
+                changed = True
         elif edit == "drop-attr" and op[4]:
             del op[4][rng.randrange(len(op[4]))]
             changed = True
@@ -206,7 +226,7 @@ def rebuild_ops(im, k, n, rng, edit):
     return ops + [o for _, o in rec_ops]
 
 
-EDITS = ["same", "perm", "rename", "dup", "value", "drop-attr", "add-attr", "id", "drop-record", "kind", "add-bundle",
+EDITS = ["same", "perm", "rename", "dup", "value", "value-kind", "value-kind", "drop-attr", "add-attr", "id", "drop-record", "kind", "add-bundle",
          "drop-id", "add-id", "drop-id", "add-id"]
 
 
@@ -241,7 +261,8 @@ def run(tier, seed, log, model_runs=True, enlarged=False):
                          ops_range_quick=(5, 16), ops_range_thorough=(6, 30),
                          rule_text="API programs followed by 2-4 variant documents per program, each rebuilt from a document of "
                                    "the program by one content-preserving transformation (same, record/attribute permutation, "
-                                   "prefix renaming, duplicate insertion) or one content-changing edit (value, attribute removed/"
+                                   "prefix renaming, duplicate insertion) or one content-changing edit (value, kind of a value with the same printed form, "
+                                   "attribute removed/"
                                    "added, identifier, record removed, record kind, extra bundle), compared in both orders through "
                                    "the model too; after every call every document is compared with itself and every record hashed and inspected through its "
                                    "read accessors (label, value, get_attribute, asserted types, times, args; so memoised or lazily created "
